@@ -97,9 +97,9 @@ def dynrej(name, kind, maxbulk=2, tiers=Q, timeout=900):
                         'range(lo,hi) for every lo,hi in 0..9 on a container bulk-loaded with %d pairs' % maxbulk][kind])
 
 
-def bucketing(name, n, topsize, topbits=32, eps=1, tiers=Q, timeout=1800):
+def bucketing(name, n, topsize, topbits=32, eps=1, tiers=Q, timeout=1800, mem_gb=14):
     d = dict(KT['uint8_t']); d.update(N=n, EPS=eps, TOPSIZE=topsize, TOPBITS=topbits, VERIF_VEC_CAP=n + 4)
-    return dict(name=name, unit='bucketing.cpp', harness='h_bucketing.c', defs=d, narrow=16, roots=['@u_bucketing'], timeout=timeout, tiers=tiers,
+    return dict(name=name, unit='bucketing.cpp', harness='h_bucketing.c', defs=d, narrow=16, roots=['@u_bucketing'], timeout=timeout, tiers=tiers, mem_gb=mem_gb,
                 noop=['memory_monitor6record'], unreachable=['_Rb_tree', 'system_category', 'system_error', 'bad_alloc', 'hugepage'],
                 bounds='exactly %d sorted uint8_t keys, every non-reserved query, Epsilon=%d, TopLevelSize=%d, TopLevelBitSize=%d; sdsl::int_vector is the real code on malloc/realloc; '
                        'sdsl::memory_monitor::record stubbed (accounting only), huge-page allocator paths asserted unreachable' % (n, eps, topsize, topbits))
@@ -164,7 +164,7 @@ JOBS['C06'] += [dynstep('dynstep_it_310', 1, 3, 1, 0, tiers=T, timeout=3000, mem
 JOBS['C15'] += [dynstep('dynstep_inv_322', 2, 3, 2, 2)]
 JOBS['C11'] = [mapped('mapped_u8_n2', 'uint8_t', 2), mapped('mapped_i8_n2', 'int8_t', 2), mapped('mapped_u8_n3_dense', 'uint8_t', 3, ord_hi=3), mapped('mapped_i8_n3', 'int8_t', 3, tiers=T, timeout=3000)]
 
-JOBS['C09'] = [bucketing('bucket_n2_t3', 2, 3), bucketing('bucket_n2_t4', 2, 4), bucketing('bucket_n3_t3', 3, 3), bucketing('bucket_n2_t4_dyn', 2, 4, topbits=0), bucketing('bucket_n2_t3_dyn', 2, 3, topbits=0), bucketing('bucket_n3_t4_dyn', 3, 4, topbits=0, tiers=T, timeout=3000), bucketing('bucket_n4_t6', 4, 6, tiers=T, timeout=4000)]
+JOBS['C09'] = [bucketing('bucket_n2_t3', 2, 3), bucketing('bucket_n2_t4', 2, 4), bucketing('bucket_n3_t3', 3, 3), bucketing('bucket_n2_t4_dyn', 2, 4, topbits=0, tiers=T, timeout=3000, mem_gb=40), bucketing('bucket_n3_t4_dyn', 3, 4, topbits=0, tiers=T, timeout=3000), bucketing('bucket_n4_t6', 4, 6, tiers=T, timeout=4000)]
 EF_PROBE = [sdslidx('ef_u16_n1', 'eliasfano.cpp', 'u_eliasfano', 'uint16_t', 1, mem_gb=45, timeout=3600), sdslidx('ef_u16_n2', 'eliasfano.cpp', 'u_eliasfano', 'uint16_t', 2, mem_gb=45, timeout=3600, tiers=T)]
 SEG_JOBS = [seg('seg_' + k.replace('_t', ''), k) for k in ('int8_t', 'uint8_t')] + [seg('seg_i8_dbl', 'int8_t', 64)] + [seg('seg_' + k.replace('_t', ''), k, tiers=T, timeout=3000) for k in ('int16_t', 'uint16_t')]
 JOBS['C01'] += SEG_JOBS
